@@ -350,9 +350,10 @@ class H3(Case):
              "np.finfo(float).eps -> exact 2^-52", "np.heaviside -> fork on the sign")
     max_paths = 64
 
-    def __init__(self, kind, regime, w0, cutoff_type, cold=False):
-        self.kind, self.regime, self.w0, self.ct, self.cold = kind, regime, w0, cutoff_type, cold
-        self.id = "H3/%s_%s_w%s_%s%s" % (kind, regime, "sym" if w0 is None else "%d" % w0, cutoff_type, "_cold" if cold else "")
+    def __init__(self, kind, regime, w0, cutoff_type, cold=False, hot=False):
+        self.kind, self.regime, self.w0, self.ct, self.cold, self.hot = kind, regime, w0, cutoff_type, cold, hot
+        self.id = "H3/%s_%s_w%s_%s%s" % (kind, regime, "sym" if w0 is None else "%d" % w0, cutoff_type,
+                                         "_cold" if cold else ("_hot" if hot else ""))
         self.bounds = {"kind": kind, "regime": regime, "omega": "symbolic in [1/10, 6]" if w0 is None else w0, "cutoff_type": cutoff_type}
         self.late = bs.Late()
         self.env = bs.bc_env(integrate=self.late)
@@ -373,6 +374,8 @@ class H3(Case):
             T = 0.0
         elif self.cold:
             T = inp.real("T", lo=Fr(1, 100), hi=Fr(1, 50))     # b = e^{-w0/T} < eps: overflow-guard branch
+        elif self.hot:
+            T = inp.real("T", lo=40, hi=80)                    # w0 T > 36 > w0/T: far on the Bose side of the guard
         else:
             T = inp.real("T", lo=Fr(1, 4), hi=4)
         if not mats:
@@ -441,8 +444,15 @@ class H3(Case):
         if mats and mode != "real":     # (floating point: the cosh/sinh form cancels catastrophically for large w tau)
             lemmas.append(Ob.eq("lemma: cancellation-free form == documented cosh/sinh/coth form of the Matsubara kernel", doc, doc_cs))
         nr = 1 if self.ct == "hard" else 2
-        obs = [Ob.holds("number of quad calls", len(calls) == 2 * nr),
-               Ob.holds("every np.exp argument is an integer combination of the generators", G.fallbacks == 0)]
+        obs = [Ob.holds("number of quad calls", len(calls) == 2 * nr)]
+        # every np.exp the code evaluates must have one of the documented exponents (integer combinations of
+        # -w/T, the phase resp. w tau, and the cut-off exponent): decided by the solver for the recorded arguments
+        if mode == "sym" and G.failed:
+            for k, x in enumerate(G.failed):
+                obs.append(Ob.holds("np.exp argument #%d is an integer combination of the documented exponents" % k,
+                                    sym.SB(G.combination_formula(x)), key="exp_argument"))
+        else:
+            obs.append(Ob.holds("every np.exp argument is an integer combination of the documented exponents", True, key="exp_argument"))
         if len(calls) != 2 * nr:
             return obs
         # frequency ranges tile [0, inf) (hard cut-off: [0, wc], J vanishes beyond)
@@ -702,6 +712,8 @@ def cases(tier):
         for regime in ("zeroT", "thermal", "matsubara"):
             for w0, ct in combos:
                 cs.append(H3(kind, regime, w0, ct))
+        cs.append(H3(kind, "thermal", 2, "exponential", hot=True))
+        cs.append(H3(kind, "matsubara", 1, "exponential", hot=True))
         cs.append(H3(kind, "thermal", 2, "exponential", cold=True))
         cs.append(H3(kind, "matsubara", 1, "exponential", cold=True))
     if th:
